@@ -5,6 +5,7 @@ import (
 	"encoding/json"
 	"errors"
 	"fmt"
+	"github.com/google/uuid"
 	stdio "io"
 	"math"
 	"math/big"
@@ -23,27 +24,33 @@ import (
 // report what it returned.  Never compares anything itself.
 type c05Case struct {
 	ID      int      `json:"id"`
-	Kind    string   `json:"kind"`   // prim | decode | samples
-	Mode    string   `json:"mode"`   // B: io.NewDecoder(bytes)   R: from the scripted reader
-	Ctor    string   `json:"ctor"`   // R only: "new" NewDecoderFromReader(r, cap) | "reset" io.VerifNewDecoderFromReader(r, cap) (verif hook: a read buffer of cap bytes, below the public minimum of 256) | "fmt" Formatter.UnmarshalFromReader
-	Cap     int      `json:"cap"`    // buffer size asked for
-	Chunks  []string `json:"chunks"` // hex; "" is a Read returning (0, nil)
-	Data    string   `json:"data"`   // alternative to chunks: the whole stream in hex ...
-	Lens    []int    `json:"lens"`   // ... and the lengths of the successive reads (0 allowed); a rest becomes one last chunk
+	Kind    string   `json:"kind"`     // prim | decode | samples
+	Mode    string   `json:"mode"`     // B: io.NewDecoder(bytes)   R: from the scripted reader
+	Ctor    string   `json:"ctor"`     // R only: "new" NewDecoderFromReader(r, cap) | "reset" io.VerifNewDecoderFromReader(r, cap) (verif hook: a read buffer of cap bytes, below the public minimum of 256) | "fmt" Formatter.UnmarshalFromReader
+	Cap     int      `json:"cap"`      // buffer size asked for
+	Chunks  []string `json:"chunks"`   // hex; "" is a Read returning (0, nil)
+	Data    string   `json:"data"`     // alternative to chunks: the whole stream in hex ...
+	Lens    []int    `json:"lens"`     // ... and the lengths of the successive reads (0 allowed); a rest becomes one last chunk
 	EOFLast bool     `json:"eof_last"` // the last chunk is returned together with io.EOF
-	Cmds    []string `json:"cmds"`   // prim
-	Type    string   `json:"type"`   // decode: destination type
-	Simple  bool     `json:"simple"` // decode: decoder.Simple(simple)
+	Cmds    []string `json:"cmds"`     // prim
+	Type    string   `json:"type"`     // decode: destination type
+	Simple  bool     `json:"simple"`   // decode: decoder.Simple(simple)
+	// decoder options (io.LongType / RealType / MapType values); the Formatter entry takes them as its fields
+	LongT int `json:"lt,omitempty"`
+	RealT int `json:"rt,omitempty"`
+	MapT  int `json:"mt,omitempty"`
+	// UseFormatter: the contiguous decode goes through Formatter.Unmarshal (the counterpart of ctor "fmt")
+	UseFormatter bool `json:"usefmt,omitempty"`
 }
 
 type c05Obs struct {
-	ID    int      `json:"id"`
-	Toks  []string `json:"toks,omitempty"`
-	Val   string   `json:"val,omitempty"`
-	Err   string   `json:"err,omitempty"`
-	Rest  string   `json:"rest,omitempty"`
-	Panic string   `json:"panic,omitempty"`
-	Reads int      `json:"reads,omitempty"`
+	ID    int         `json:"id"`
+	Toks  []string    `json:"toks,omitempty"`
+	Val   string      `json:"val,omitempty"`
+	Err   string      `json:"err,omitempty"`
+	Rest  string      `json:"rest,omitempty"`
+	Panic string      `json:"panic,omitempty"`
+	Reads int         `json:"reads,omitempty"`
 	Items []c05Sample `json:"items,omitempty"`
 }
 
@@ -275,10 +282,10 @@ type sampleStruct struct {
 }
 
 type sampleRefs struct {
-	A []byte
+	A  []byte
 	S1 string
 	S2 string
-	M map[string]string
+	M  map[string]string
 }
 
 func init() {
@@ -330,6 +337,20 @@ func newDest(typ string) (interface{}, error) {
 		return new(*sampleStruct), nil
 	case "refs":
 		return new(sampleRefs), nil
+	case "uuid":
+		return new(uuid.UUID), nil
+	case "[]uuid":
+		return new([]uuid.UUID), nil
+	case "[16]byte":
+		return new([16]byte), nil
+	case "[][16]byte":
+		return new([][16]byte), nil
+	case "[4]byte":
+		return new([4]byte), nil
+	case "bigfloat":
+		return new(*big.Float), nil
+	case "bigrat":
+		return new(*big.Rat), nil
 	}
 	return nil, fmt.Errorf("unknown type %q", typ)
 }
@@ -440,7 +461,24 @@ func runDecode(c *c05Case, obs *c05Obs) error {
 			return cerr
 		}
 		r := &scriptedReader{chunks: chunks, eofLast: c.EOFLast}
-		e := io.Formatter{Simple: c.Simple}.UnmarshalFromReader(r, dest)
+		e := io.Formatter{Simple: c.Simple, LongType: io.LongType(c.LongT), RealType: io.RealType(c.RealT), MapType: io.MapType(c.MapT)}.UnmarshalFromReader(r, dest)
+		obs.Err = errClass(e)
+		obs.Rest = "n/a"
+		var sb strings.Builder
+		canon(reflect.ValueOf(dest).Elem(), 0, &sb)
+		obs.Val = sb.String()
+		return nil
+	}
+	if c.Mode == "B" && c.UseFormatter {
+		chunks, cerr := chunksOf(c)
+		if cerr != nil {
+			return cerr
+		}
+		var all []byte
+		for _, b := range chunks {
+			all = append(all, b...)
+		}
+		e := io.Formatter{Simple: c.Simple, LongType: io.LongType(c.LongT), RealType: io.RealType(c.RealT), MapType: io.MapType(c.MapT)}.Unmarshal(exact(all), dest)
 		obs.Err = errClass(e)
 		obs.Rest = "n/a"
 		var sb strings.Builder
@@ -453,6 +491,7 @@ func runDecode(c *c05Case, obs *c05Obs) error {
 		return err
 	}
 	dec.Simple(c.Simple)
+	dec.LongType, dec.RealType, dec.MapType = io.LongType(c.LongT), io.RealType(c.RealT), io.MapType(c.MapT)
 	dec.Decode(dest)
 	obs.Err = errClass(dec.Error)
 	rest := dec.Remains() // refills the buffer: a value aliasing it would change below
